@@ -1121,6 +1121,58 @@ theorem no_beat_while_heart_beats_off (sc : Scripts) (cmds : List Cmd) (hk : Nat
 example : quietWhenOff false [.tickOff, .beat 2] = false := by decide
 example : quietWhenOff false [.tickOff, .tickEnd, .tickBegin, .beat 2] = true := by decide
 
+/-! ### intervals of any size, and retuning in place -/
+
+theorem efunSat_min (n : Int) (h1 : 1 ≤ n) : NV.Gen.C11.efunSat n = min n shrtMax := by
+  have hs : shrtMax = 32767 := by decide
+  rw [gen_efunSat_eq]
+  unfold satEfun
+  split
+  · omega
+  · split <;> omega
+
+/-- **interval of any size**: set_heart_beat(n) with ANY LPC integer n ≥ 1 on a live object without heart beat stores
+    min(n, SHRT_MAX) in both short fields - no truncation, no wrap (the repaired code; `Witness.lean` has the values the
+    unrepaired store produced).  With `serveN_period` the object then beats exactly once every min(n, SHRT_MAX) ticks. -/
+theorem interval_stored_any (w : World) (x : Nat) (n : Int) (h1 : 1 ≤ n)
+    (hd : w.dead.contains x = false) (hon : hasOb x w.hbs = false) (hc : w.hbs.length ≤ w.cap) :
+    (setHeartBeat w x (NV.Gen.C11.efunSat n)).hbs =
+      w.hbs ++ [{ ob := x, ticks := min n shrtMax, interval := min n shrtMax }] := by
+  have hs : shrtMax = 32767 := by decide
+  have e : NV.Gen.C11.efunSat n = NV.Gen.C11.efunSat (min n shrtMax) := by
+    rw [efunSat_min n h1, efunSat_min (min n shrtMax) (by omega)]
+    omega
+  rw [e]
+  exact interval_stored w x (min n shrtMax) (by omega) (by omega) hd hon hc
+
+example : (setHeartBeat { cap := 32 } 2 (NV.Gen.C11.efunSat 4294967297)).hbs = [⟨2, 32767, 32767⟩] := by decide
+
+/-- **retuning in place** (the neighbourhood of the independently written change C11-5): set_heart_beat(n), n ≥ 1, on an
+    object that already has a heart beat rewrites its entry where it is - the order of the array, the round cursor and the
+    number of entries still to serve are untouched, so an object that has not been visited yet in the running round is
+    still visited in it; every other entry keeps countdown and interval -/
+theorem retune_keeps_position (w : World) (x : Nat) (n : Int) (h1 : 1 ≤ n)
+    (hd : w.dead.contains x = false) (hon : hasOb x w.hbs = true) :
+    (setHeartBeat w x (NV.Gen.C11.efunSat n)).hbs = retune x (min n shrtMax) w.hbs ∧
+    (setHeartBeat w x (NV.Gen.C11.efunSat n)).hbs.map (·.ob) = w.hbs.map (·.ob) ∧
+    (setHeartBeat w x (NV.Gen.C11.efunSat n)).idx = w.idx ∧ (setHeartBeat w x (NV.Gen.C11.efunSat n)).todo = w.todo := by
+  have hs : shrtMax = 32767 := by decide
+  obtain ⟨i, hi, _⟩ := idxOf_some_of_has hon
+  have h3 : ¬ (min n shrtMax > shrtMax) := by omega
+  have h4 : ¬ (min n shrtMax = 0) := by omega
+  have h5 : ¬ (min n shrtMax < 0) := by omega
+  have hw : wrap16 (min n shrtMax) = min n shrtMax := wrap16_id (by omega) (by omega)
+  have hset : setHeartBeat w x (NV.Gen.C11.efunSat n) = { w with hbs := retune x (min n shrtMax) w.hbs } := by
+    rw [efunSat_min n h1, setHeartBeat_eq_ref]
+    unfold setHeartBeatRef
+    simp only [hd, h3, h4, h5, hon, hi, hw, if_false, if_true, Bool.false_eq_true]
+    rw [set_idxOf _ hi]
+  rw [hset]
+  exact ⟨rfl, retune_obs x _ w.hbs, rfl, rfl⟩
+
+example : (setHeartBeat { hbs := [⟨2, 1, 1⟩, ⟨3, 1, 1⟩, ⟨4, 1, 1⟩], cap := 32, idx := 0, todo := 3 } 4 (NV.Gen.C11.efunSat 3)).hbs =
+    [⟨2, 1, 1⟩, ⟨3, 1, 1⟩, ⟨4, 3, 3⟩] := by decide
+
 -- non-vacuity: the predicates reject what they should
 example : beatsOnce [] [.tickBegin, .beat 2, .beatEnd 2, .beat 2] = false := by decide
 example : calledOnlyOn [] [.shb 2 2 0 0, .tickBegin, .beat 2] = false := by decide
